@@ -17,6 +17,7 @@ import time
 from .xl import MachineryError, REPO
 
 VERIF = os.path.dirname(os.path.dirname(os.path.abspath(__file__)))
+OUT = os.environ.get('VERIF_OUT', VERIF)      # evidence/ and replay/ go here (scratch dir for mutant runs)
 SPEC = os.path.join(VERIF, 'spec')
 TLC_CP = '/opt/veriftools/tla/tla2tools.jar:/opt/veriftools/tla/CommunityModules-deps.jar'
 
@@ -69,7 +70,7 @@ class Run:
         name = name or cfg.replace('.cfg', '')
         meta = os.path.join(self.work, 'meta-' + name)
         res = TlcResult()
-        cmd = ['timeout', str(timeout), 'java', '-XX:+UseParallelGC', '-Xmx12g', '-cp', TLC_CP,
+        cmd = ['timeout', str(timeout), 'java', '-XX:+UseParallelGC', '-Xmx' + os.environ.get('VERIF_TLC_HEAP', '6g'), '-cp', TLC_CP,
                'tlc2.TLC', '-workers', str(workers), '-metadir', meta, '-noGenerateSpecTE',
                '-config', os.path.join('cfg', cfg)]
         if coverage:
@@ -112,6 +113,10 @@ class Run:
         if p.returncode != 0 or 'No error has been found' not in p.stdout and not simulate:
             tail = '\n'.join(p.stdout.splitlines()[-40:])
             raise MachineryError(f'TLC failed on {module}/{cfg} (rc={p.returncode}, violated={res.violated}):\n{tail}')
+        for ln in open(os.path.join(SPEC, 'cfg', cfg)):
+            m2 = re.match(r'\s*(INVARIANT|PROPERTY)\s+(\w+)', ln)
+            if m2:
+                self.laws[f'{module}.{m2.group(2)}'] = 'holds'
         self.states += res.distinct
         self.transitions += max(res.generated - res.init, 0)
         return res
@@ -158,7 +163,7 @@ class Run:
         replay_paths = []
         if unlisted:
             rc = 1
-            rdir = os.path.join(VERIF, 'replay', self.prop)
+            rdir = os.path.join(OUT, 'replay', self.prop)
             os.makedirs(rdir, exist_ok=True)
             groups = {}
             for d in unlisted:
@@ -211,15 +216,17 @@ class Run:
             'known_findings_seen': seen,
             'repo': REPO,
         }
-        os.makedirs(os.path.join(VERIF, 'evidence'), exist_ok=True)
-        with open(os.path.join(VERIF, 'evidence', f'{self.prop}.json'), 'w') as fh:
+        os.makedirs(os.path.join(OUT, 'evidence'), exist_ok=True)
+        with open(os.path.join(OUT, 'evidence', f'{self.prop}.json'), 'w') as fh:
             json.dump(ev, fh, indent=1, default=str)
 
 
 def load_findings(prop):
-    path = os.path.join(VERIF, 'findings', 'known_findings.json')
-    if not os.path.exists(path):
-        return []
-    with open(path) as fh:
-        data = json.load(fh)
-    return [f for f in data.get('findings', []) if f.get('property') == prop]
+    out = []
+    fdir = os.path.join(VERIF, 'findings')
+    for name in sorted(os.listdir(fdir)):
+        if name.endswith('.json'):
+            with open(os.path.join(fdir, name)) as fh:
+                data = json.load(fh)
+            out += [f for f in data.get('findings', []) if f.get('property') == prop]
+    return out
